@@ -1,5 +1,533 @@
 package main
 
-type LayoutType struct{}
+// Wire-layout tables (specs/layouts/*.json) and the contracts synthesised from them for
+// IEncode / IDecode (`layout enc`, `layout dec` directives in the contract files).
 
-func (e *CEnv) layoutCall(name string, args []*CExpr) (Value, bool) { return nil, false }
+import (
+	"encoding/json"
+	"fmt"
+	"go/types"
+	"os"
+	"path/filepath"
+	"regexp"
+	"strconv"
+	"strings"
+)
+
+type LField struct {
+	Wire   string
+	Kind   string // u8 u16 u32 u64 fixed bin hex cstr bytes rep tlvs options seq3
+	N      int    // width for fixed/bin/hex, element width for rep
+	Ref    string // length / count member for bytes / rep
+	Member string
+}
+
+type LayoutType struct {
+	Pkg       string
+	Type      string
+	Header    string
+	LenMode   string
+	Command   string
+	Section   string
+	Fields    []LField
+	Normalise []struct {
+		If  string                 `json:"if"`
+		Set map[string]interface{} `json:"set"`
+	}
+	Observed map[string]interface{}
+	Doc      string
+}
+
+type layoutFile struct {
+	Package  string `json:"package"`
+	Document string `json:"document"`
+	Header   string `json:"header"`
+	Length   string `json:"length"`
+	Types    []struct {
+		Type      string          `json:"type"`
+		Section   string          `json:"section"`
+		Command   json.RawMessage `json:"command"`
+		Fields    [][]interface{} `json:"fields"`
+		Normalise json.RawMessage `json:"normalise"`
+		Observed  map[string]interface{} `json:"observed"`
+	} `json:"types"`
+}
+
+var kindRe = regexp.MustCompile(`^(\w+)(?:\((.*)\))?$`)
+
+func parseKind(k string) (LField, error) {
+	m := kindRe.FindStringSubmatch(strings.TrimSpace(k))
+	if m == nil {
+		return LField{}, fmt.Errorf("bad field kind %q", k)
+	}
+	f := LField{Kind: m[1]}
+	switch m[1] {
+	case "u8", "u16", "u32", "u64", "cstr", "tlvs", "options", "seq3":
+	case "fixed", "bin", "hex":
+		n, err := strconv.Atoi(m[2])
+		if err != nil {
+			return f, fmt.Errorf("bad width in %q", k)
+		}
+		f.N = n
+	case "bytes":
+		f.Ref = strings.TrimSpace(m[2])
+	case "rep":
+		parts := strings.SplitN(m[2], ",", 2)
+		if len(parts) != 2 {
+			return f, fmt.Errorf("bad rep in %q", k)
+		}
+		f.Ref = strings.TrimSpace(parts[0])
+		inner, err := parseKind(parts[1])
+		if err != nil || inner.Kind != "fixed" {
+			return f, fmt.Errorf("rep of %q not supported", parts[1])
+		}
+		f.N = inner.N
+	default:
+		return f, fmt.Errorf("unknown field kind %q", k)
+	}
+	return f, nil
+}
+
+func (w *World) loadLayouts() error {
+	files, _ := filepath.Glob(filepath.Join(w.Root, "specs", "layouts", "*.json"))
+	for _, fn := range files {
+		b, err := os.ReadFile(fn)
+		if err != nil {
+			return err
+		}
+		var lf layoutFile
+		if err := json.Unmarshal(b, &lf); err != nil {
+			return fmt.Errorf("%s: %v", fn, err)
+		}
+		for _, t := range lf.Types {
+			lt := &LayoutType{Pkg: lf.Package, Type: t.Type, Header: lf.Header, LenMode: lf.Length, Section: t.Section, Observed: t.Observed, Doc: lf.Document}
+			if len(t.Command) > 0 {
+				var one string
+				var many []string
+				if json.Unmarshal(t.Command, &one) == nil {
+					lt.Command = one
+				} else if json.Unmarshal(t.Command, &many) == nil {
+					lt.Command = strings.Join(many, ",")
+				}
+			}
+			if len(t.Normalise) > 0 {
+				if err := json.Unmarshal(t.Normalise, &lt.Normalise); err != nil {
+					return fmt.Errorf("%s: %s: normalise: %v", fn, t.Type, err)
+				}
+			}
+			for _, f := range t.Fields {
+				if len(f) < 3 {
+					return fmt.Errorf("%s: %s: bad field row %v", fn, t.Type, f)
+				}
+				lfld, err := parseKind(fmt.Sprint(f[1]))
+				if err != nil {
+					return fmt.Errorf("%s: %s: %v", fn, t.Type, err)
+				}
+				lfld.Wire, lfld.Member = fmt.Sprint(f[0]), fmt.Sprint(f[2])
+				lt.Fields = append(lt.Fields, lfld)
+			}
+			w.Layouts[lt.Pkg+"."+lt.Type] = lt
+		}
+	}
+	return nil
+}
+
+// observed(): the layout the code is known to implement where it deviates from the document (known findings).
+func (lt *LayoutType) withObserved() *LayoutType {
+	if lt.Observed == nil {
+		return lt
+	}
+	c := *lt
+	c.Fields = append([]LField(nil), lt.Fields...)
+	if ef, ok := lt.Observed["extra_fields"].([]interface{}); ok {
+		for _, row := range ef {
+			r := row.([]interface{})
+			f, err := parseKind(r[1].(string))
+			if err == nil {
+				f.Wire, f.Member = r[0].(string), r[2].(string)
+				c.Fields = append(c.Fields, f)
+			}
+		}
+	}
+	return &c
+}
+
+func (lt *LayoutType) headerMembers(r string) (lenMember string, rest []string) {
+	switch lt.Header {
+	case "cmpp12", "smgp12":
+		return r + ".Header.TotalLength", []string{"be32(int(" + r + ".Header.CommandID))", "be32(int(" + r + ".Header.SequenceID))"}
+	case "smpp16":
+		return r + ".Header.Length", []string{"be32(int(" + r + ".Header.ID))", "be32(int(" + r + ".Header.Status))", "be32(int(" + r + ".Header.Sequence))"}
+	case "sgip20":
+		return r + ".Header.TotalLength", []string{"be32(int(" + r + ".Header.CommandID))", "be32(int(" + r + ".Header.Sequence[0]))", "be32(int(" + r + ".Header.Sequence[1]))", "be32(int(" + r + ".Header.Sequence[2]))"}
+	}
+	return "", nil
+}
+
+func (lt *LayoutType) headerEq(a, b string) []string {
+	switch lt.Header {
+	case "cmpp12", "smgp12":
+		return []string{a + ".Header.CommandID == " + b + ".Header.CommandID", a + ".Header.SequenceID == " + b + ".Header.SequenceID"}
+	case "smpp16":
+		return []string{a + ".Header.ID == " + b + ".Header.ID", a + ".Header.Status == " + b + ".Header.Status", a + ".Header.Sequence == " + b + ".Header.Sequence"}
+	case "sgip20":
+		return []string{a + ".Header.CommandID == " + b + ".Header.CommandID", a + ".Header.Sequence[0] == " + b + ".Header.Sequence[0]",
+			a + ".Header.Sequence[1] == " + b + ".Header.Sequence[1]", a + ".Header.Sequence[2] == " + b + ".Header.Sequence[2]"}
+	}
+	return nil
+}
+
+func (lt *LayoutType) headerLen() int {
+	switch lt.Header {
+	case "cmpp12", "smgp12":
+		return 12
+	case "smpp16":
+		return 16
+	case "sgip20":
+		return 20
+	}
+	return 0
+}
+
+func (f LField) seg(r string) []string {
+	m := r + "." + f.Member
+	switch f.Kind {
+	case "u8":
+		return []string{"u8(int(" + m + "))"}
+	case "u16", "u32", "u64":
+		return []string{"be" + f.Kind[1:] + "(int(" + m + "))"}
+	case "fixed":
+		return []string{fmt.Sprintf("fixed(%s, %d)", m, f.N)}
+	case "bin":
+		return []string{"content(" + m + ")"}
+	case "hex":
+		return []string{"hexdec(" + m + ")"}
+	case "cstr":
+		return []string{"cstr(" + m + ")"}
+	case "bytes":
+		return []string{"content(" + m + ")"}
+	case "rep":
+		return []string{fmt.Sprintf("rep(elems(%s), %d, 0, len(%s))", m, f.N, m)}
+	case "seq3":
+		return []string{"be32(int(" + m + "[0]))", "be32(int(" + m + "[1]))", "be32(int(" + m + "[2]))"}
+	case "tlvs":
+		return []string{"tlvser(" + m + ")"}
+	case "options":
+		return []string{"optser(" + m + ")"}
+	}
+	return nil
+}
+
+func (f LField) minWidth() int {
+	switch f.Kind {
+	case "u8":
+		return 1
+	case "u16":
+		return 2
+	case "u32":
+		return 4
+	case "u64":
+		return 8
+	case "fixed", "bin", "hex":
+		return f.N
+	case "cstr":
+		return 1
+	case "seq3":
+		return 12
+	}
+	return 0
+}
+
+// wf clauses for member f of record r
+func (f LField) wf(r string) []string {
+	m := r + "." + f.Member
+	switch f.Kind {
+	case "fixed":
+		return []string{fmt.Sprintf("nonul(%s) && len(%s) <= %d", m, m, f.N)}
+	case "bin":
+		return []string{fmt.Sprintf("len(%s) == %d", m, f.N)}
+	case "hex":
+		return []string{fmt.Sprintf("%s == hexenc(hexdec(%s)) && len(hexdec(%s)) == %d", m, m, m, f.N)}
+	case "cstr":
+		return []string{"nonul(" + m + ")"}
+	case "bytes":
+		return []string{fmt.Sprintf("len(%s) == int(%s.%s)", m, r, f.Ref)}
+	case "rep":
+		return []string{fmt.Sprintf("len(%s) == int(%s.%s)", m, r, f.Ref),
+			fmt.Sprintf("forall j int :: 0 <= j && j < len(%s) ==> nonul(%s[j]) && len(%s[j]) <= %d", m, m, m, f.N)}
+	case "tlvs":
+		return []string{"tlvwf(" + m + ")"}
+	case "options":
+		return []string{"optwf(" + m + ")"}
+	}
+	return nil
+}
+
+// eq clauses: decoded member of a equals member of b
+func (f LField) eq(a, b string) []string {
+	ma, mb := a+"."+f.Member, b+"."+f.Member
+	switch f.Kind {
+	case "rep":
+		return []string{fmt.Sprintf("len(%s) == len(%s)", ma, mb),
+			fmt.Sprintf("forall j int :: 0 <= j && j < len(%s) ==> %s[j] == %s[j]", mb, ma, mb)}
+	case "seq3":
+		return []string{ma + "[0] == " + mb + "[0]", ma + "[1] == " + mb + "[1]", ma + "[2] == " + mb + "[2]"}
+	case "tlvs":
+		return []string{"tlveq(" + ma + ", " + mb + ")"}
+	case "options":
+		return []string{"opteq(" + ma + ", " + mb + ")"}
+	}
+	return []string{ma + " == " + mb}
+}
+
+// layoutText: concatenation of the segments [from,to) (field indices; -1 = include header) as a cat(...) expression.
+func (lt *LayoutType) layoutText(r, lenExpr string, withLen bool, from, to int) string {
+	var segs []string
+	if from < 0 {
+		if lt.Header != "none" {
+			_, rest := lt.headerMembers(r)
+			if withLen {
+				segs = append(segs, "be32("+lenExpr+")")
+			}
+			segs = append(segs, rest...)
+		}
+		from = 0
+	}
+	for i := from; i < to && i < len(lt.Fields); i++ {
+		segs = append(segs, lt.Fields[i].seg(r)...)
+	}
+	if len(segs) == 0 {
+		return "eps"
+	}
+	return "cat(" + strings.Join(segs, ", ") + ")"
+}
+
+func (lt *LayoutType) fieldIndex(member string) int {
+	for i, f := range lt.Fields {
+		if f.Member == member {
+			return i
+		}
+	}
+	return -1
+}
+
+func (lt *LayoutType) mandatory() int {
+	n := lt.headerLen()
+	for _, f := range lt.Fields {
+		n += f.minWidth()
+	}
+	return n
+}
+
+func mustClause(kind, props, label, text string) *Clause {
+	e, err := ParseCExpr(text)
+	if err != nil {
+		panic(fmt.Errorf("synthesised clause %q: %v", text, err))
+	}
+	c := &Clause{Kind: kind, E: e, Text: text, Label: label}
+	if props != "" {
+		c.Props = strings.Split(props, ",")
+	}
+	return c
+}
+
+// synthesise adds the table-derived behaviours to a contract carrying a `layout` directive.
+func (w *World) synthesise(fs *FuncSpec) error {
+	dir := strings.Fields(fs.Layout)
+	if len(dir) == 0 {
+		return nil
+	}
+	tn := strings.TrimPrefix(fs.Recv, "*")
+	doc := w.Layouts[fs.Pkg+"."+tn]
+	if doc == nil {
+		return fmt.Errorf("%s: no layout table for type %s", fs.Key, tn)
+	}
+	fn := w.LookupFunc(fs)
+	if fn == nil {
+		return nil // reported as a binding failure later
+	}
+	r := fn.Params[0].Name()
+	// the document layout is the specification; an `observed` block only narrows a known finding (see check.go)
+	lt := doc
+	if fs.Options["layout-observed"] == "true" {
+		lt = doc.withObserved()
+	}
+	lenMember, _ := lt.headerMembers(r)
+	switch dir[0] {
+	case "enc":
+		enc := &Behavior{Name: "enc", Props: []string{"C01", "C02"}}
+		enc.Requires = append(enc.Requires, mustClause("requires", "", "", r+" != nil"))
+		norm := map[string]bool{}
+		for _, n := range lt.Normalise {
+			for m := range n.Set {
+				norm[m] = true
+			}
+		}
+		for _, f := range lt.Fields {
+			for _, c := range f.wf(r) {
+				enc.Requires = append(enc.Requires, mustClause("requires", "", "", c))
+			}
+		}
+		enc.Ensures = append(enc.Ensures, mustClause("ensures", "C01,C02", "enc.ok", "err == nil"))
+		if lt.Header != "none" {
+			enc.Ensures = append(enc.Ensures, mustClause("ensures", "C01,C02", "enc.layout", "result == "+lt.layoutText(r, "len(result)", true, -1, len(lt.Fields))))
+			enc.Ensures = append(enc.Ensures, mustClause("ensures", "C01,C02", "enc.len", "len(result) < 4294967296"))
+		} else {
+			enc.Ensures = append(enc.Ensures, mustClause("ensures", "C01,C02", "enc.layout", "result == "+lt.layoutText(r, "", false, -1, len(lt.Fields))))
+		}
+		for i, c := range lt.headerEq(r, "old("+r+")") {
+			_ = i
+			c2 := strings.Replace(c, "old("+r+").", "old("+r+".", 1)
+			c2 = fixOld(c, r)
+			enc.Ensures = append(enc.Ensures, mustClause("ensures", "C01", fmt.Sprintf("enc.frame.Header.%d", i), c2))
+		}
+		for _, f := range lt.Fields {
+			if norm[f.Member] {
+				continue
+			}
+			for j, c := range f.eq(r, "old("+r+")") {
+				enc.Ensures = append(enc.Ensures, mustClause("ensures", "C01", fmt.Sprintf("enc.frame.%s.%d", f.Member, j), fixOld(c, r)))
+			}
+		}
+		for _, n := range lt.Normalise {
+			for m, v := range n.Set {
+				cond := qualify(n.If, r, lt)
+				val := qualify(fmt.Sprint(v), r, lt)
+				text := fmt.Sprintf("(old(%s) ==> int(%s.%s) == old(int(%s))) && (!old(%s) ==> %s.%s == old(%s.%s))", cond, r, m, val, cond, r, m, r, m)
+				enc.Ensures = append(enc.Ensures, mustClause("ensures", "C01", "enc.norm."+m, text))
+			}
+		}
+		fs.Behaviors = append(fs.Behaviors, enc)
+		// refusal of values that do not fit their fixed-width slot
+		var over []string
+		for _, f := range lt.Fields {
+			if f.Kind == "fixed" {
+				over = append(over, fmt.Sprintf("len(%s.%s) > %d", r, f.Member, f.N))
+			}
+		}
+		if len(over) > 0 {
+			ref := &Behavior{Name: "refuse", Props: []string{"C01"}}
+			ref.Requires = append(ref.Requires, mustClause("requires", "", "", r+" != nil"))
+			ref.Requires = append(ref.Requires, mustClause("requires", "", "", strings.Join(over, " || ")))
+			ref.Ensures = append(ref.Ensures, mustClause("ensures", "C01", "enc.refuse", "err != nil"))
+			fs.Behaviors = append(fs.Behaviors, ref)
+		}
+	case "dec":
+		dec := &Behavior{Name: "dec", Props: []string{"C01", "C02"}}
+		dec.Ghost = []CVar{{"q", tn}}
+		dec.Requires = append(dec.Requires, mustClause("requires", "", "", r+" != nil"))
+		dec.Requires = append(dec.Requires, mustClause("requires", "", "", "len(data) < 4294967296"))
+		for _, f := range lt.Fields {
+			for _, c := range f.wf("q") {
+				dec.Requires = append(dec.Requires, mustClause("requires", "", "", c))
+			}
+			if f.Kind == "rep" {
+				dec.Requires = append(dec.Requires, mustClause("requires", "", "", "len("+r+"."+f.Member+") == 0"))
+			}
+		}
+		dec.Requires = append(dec.Requires, mustClause("requires", "", "", "content(data) == "+lt.layoutText("q", "len(data)", true, -1, len(lt.Fields))))
+		dec.Ensures = append(dec.Ensures, mustClause("ensures", "C01,C02", "dec.ok", "err == nil"))
+		if lenMember != "" {
+			dec.Ensures = append(dec.Ensures, mustClause("ensures", "C01,C02", "dec.Header.len", "int("+lenMember+") == len(data)"))
+		}
+		for i, c := range lt.headerEq(r, "q") {
+			dec.Ensures = append(dec.Ensures, mustClause("ensures", "C01,C02", fmt.Sprintf("dec.Header.%d", i), c))
+		}
+		for _, f := range lt.Fields {
+			for j, c := range f.eq(r, "q") {
+				dec.Ensures = append(dec.Ensures, mustClause("ensures", "C01,C02", fmt.Sprintf("dec.%s.%d", f.Member, j), c))
+			}
+		}
+		fs.Behaviors = append(fs.Behaviors, dec)
+		// arbitrary input: safety, truncation reported, decoded value well-formed, allocation budget
+		safe := &Behavior{Name: "safe", Props: []string{"C03"}}
+		safe.Requires = append(safe.Requires, mustClause("requires", "", "", r+" != nil"))
+		safe.Ensures = append(safe.Ensures, mustClause("ensures", "C03", "trunc", fmt.Sprintf("err == nil ==> len(data) >= %d", lt.mandatory())))
+		safe.Ensures = append(safe.Ensures, mustClause("ensures", "C03", "alloc", "alloc <= 1048576 + 64 * len(data)"))
+		for _, f := range lt.Fields {
+			for j, c := range f.wf(r) {
+				if f.Kind == "bytes" || f.Kind == "rep" && j == 0 {
+					// counts are what was read: consistency of count and list is part of C11's re-encodability
+				}
+				safe.Ensures = append(safe.Ensures, mustClause("ensures", "C11", fmt.Sprintf("wf.%s.%d", f.Member, j), "err == nil ==> ("+c+")"))
+			}
+		}
+		fs.Behaviors = append(fs.Behaviors, safe)
+	default:
+		return fmt.Errorf("%s: unknown layout directive %q", fs.Key, fs.Layout)
+	}
+	return nil
+}
+
+// fixOld rewrites "<r>.X == old(<r>).X" into "<r>.X == old(<r>.X)" (old() takes a whole expression).
+var oldRe = regexp.MustCompile(`old\((\w+)\)((?:\.\w+|\[\w+\])+)`)
+
+func fixOld(c, r string) string {
+	return oldRe.ReplaceAllString(c, "old($1$2)")
+}
+
+var identRe = regexp.MustCompile(`\b[A-Z]\w*\b`)
+
+// qualify turns bare member names of a normalise condition into <r>.<Member>.
+func qualify(s, r string, lt *LayoutType) string {
+	return identRe.ReplaceAllStringFunc(s, func(id string) string {
+		if i := lt.fieldIndex(id); i >= 0 {
+			if strings.HasPrefix(lt.Fields[i].Kind, "u") {
+				return "int(" + r + "." + id + ")"
+			}
+			return r + "." + id
+		}
+		return id
+	})
+}
+
+func typeNameFull(t types.Type) string {
+	if n, ok := t.(*types.Named); ok && n.Obj().Pkg() != nil {
+		return n.Obj().Pkg().Path() + "." + n.Obj().Name()
+	}
+	return t.String()
+}
+
+// layoutCall: layprefix(p, "Member") / laysuffix(q, "Member") used in loop invariants.
+func (e *CEnv) layoutCall(name string, args []*CExpr) (Value, bool) {
+	switch name {
+	case "layprefix", "laysuffix", "layprefixL":
+	default:
+		return nil, false
+	}
+	if len(args) != 2 || args[1].Kind != "str" {
+		cfail("%s(record, \"Member\")", name)
+	}
+	v := e.eval(args[0])
+	var tname string
+	switch p := v.(type) {
+	case *PtrVal:
+		tname = typeNameFull(p.Obj.Typ)
+	case *StructVal:
+		tname = typeNameFull(p.Typ)
+	}
+	lt := e.x.W.Layouts[tname]
+	if lt == nil {
+		cfail("%s: no layout table for %s", name, tname)
+	}
+	idx := lt.fieldIndex(args[1].Str)
+	if idx < 0 {
+		cfail("%s: no member %s in the layout of %s", name, args[1].Str, tname)
+	}
+	n := e.clone()
+	n.vars["__r"] = v
+	var text string
+	switch name {
+	case "layprefix":
+		// what the writer holds before the member is written: header (without the length prefix when it is
+		// filled in by BytesWithLength) and the preceding fields
+		text = lt.layoutText("__r", "int(__r.Header.TotalLength)", lt.LenMode == "field", -1, idx)
+	case "laysuffix":
+		text = lt.layoutText("__r", "", false, idx+1, len(lt.Fields))
+	}
+	ex, err := ParseCExpr(text)
+	if err != nil {
+		cfail("%s: %v", name, err)
+	}
+	return n.eval(ex), true
+}
